@@ -5,6 +5,8 @@ package drpcconn
 
 import (
 	"context"
+	"errors"
+	"io"
 	"sync"
 
 	"github.com/zeebo/errs"
@@ -137,21 +139,25 @@ func (c *Conn) Invoke(ctx context.Context, rpc string, enc drpc.Encoding, in, ou
 }
 
 func (c *Conn) doInvoke(stream *drpcstream.Stream, enc drpc.Encoding, rpc string, data []byte, metadata []byte, out drpc.Message) (err error) {
+	// a write that fails with io.EOF means the stream has already been ended,
+	// for example because the handler failed before the whole request was
+	// written. like with grpc, the reason is reported by the receive, so keep
+	// going instead of returning a bare io.EOF that has lost the remote error.
 	if len(metadata) > 0 {
-		if err := stream.RawWrite(drpcwire.KindInvokeMetadata, metadata); err != nil {
+		if err := stream.RawWrite(drpcwire.KindInvokeMetadata, metadata); err != nil && !errors.Is(err, io.EOF) {
 			return err
 		}
 		drpcdebug.Point("conn.invoke.afterMeta", c.tr)
 	}
-	if err := stream.RawWrite(drpcwire.KindInvoke, []byte(rpc)); err != nil {
+	if err := stream.RawWrite(drpcwire.KindInvoke, []byte(rpc)); err != nil && !errors.Is(err, io.EOF) {
 		return err
 	}
 	drpcdebug.Point("conn.invoke.afterInvoke", c.tr)
-	if err := stream.RawWrite(drpcwire.KindMessage, data); err != nil {
+	if err := stream.RawWrite(drpcwire.KindMessage, data); err != nil && !errors.Is(err, io.EOF) {
 		return err
 	}
 	drpcdebug.Point("conn.invoke.afterMessage", c.tr)
-	if err := stream.CloseSend(); err != nil {
+	if err := stream.CloseSend(); err != nil && !errors.Is(err, io.EOF) {
 		return err
 	}
 	if err := stream.MsgRecv(out, enc); err != nil {
